@@ -368,8 +368,10 @@ static const mc_sys SYS = { CLS, 0, op_name, fresh, enabled, apply, probe, canon
 /* ------------------------------------------------------------------ stream / descriptor constructors */
 static int g_hook_fd = -1;
 ssize_t __real_read(int fd, void *buf, size_t n);
+static int g_eio_at = -1, g_eio_seen;
 ssize_t __wrap_read(int fd, void *buf, size_t n)
 {
+    if (fd == g_hook_fd && g_eio_at >= 0 && g_eio_seen++ >= g_eio_at) { errno = EIO; return -1; }          /* from this call on the descriptor fails hard */
     if (fd == g_hook_fd && mc_e3_active() && n > 0) {
         int c = mc_choose(4);
         if (c == 1) n = 1;
@@ -475,6 +477,84 @@ static void sc_case(uint64_t idx, void *ctx)
 }
 
 
+/* ------------------------------------------------------------------ descriptor constructors with a history, and with hard read errors (as in h_str.c) */
+static void fill_bytes(unsigned char *p, int len) { for (int i = 0; i < len; i++) p[i] = (unsigned char) ((i * 7 + i / 256) & 0xff); }
+static int queue_stream(int kind, const unsigned char *data, int len, int fds[2])
+{
+    if (kind == 0) { if (pipe(fds)) return 0; fcntl(fds[1], F_SETPIPE_SZ, 1 << 20); }
+    else { if (socketpair(AF_UNIX, SOCK_STREAM, 0, fds)) return 0; int sz = 1 << 20; setsockopt(fds[1], SOL_SOCKET, SO_SNDBUF, &sz, sizeof sz); setsockopt(fds[0], SOL_SOCKET, SO_RCVBUF, &sz, sizeof sz); }
+    int off = 0; fcntl(fds[1], F_SETFL, O_NONBLOCK);
+    while (off < len) { ssize_t w = write(fds[1], data + off, (size_t) (len - off)); if (w <= 0) break; off += (int) w; }
+    close(fds[1]); fds[1] = -1;
+    if (off != len) { close(fds[0]); return 0; }
+    return 1;
+}
+static void check_bytes(T o, const unsigned char *pay, int explen, const char *site, const char *shape, const char *what)
+{
+    if (!o) { FAIL(site, "model:return", shape, "%s: constructor returned NULL", what); return; }
+    if (!o->buff) { if (explen) FAIL(site, "model:bytes", shape, "%s: empty object for %d expected bytes", what, explen); return; }
+    if (o->len != explen) FAIL(site, "model:len", shape, "%s: len=%ld expected %d", what, (long) o->len, explen);
+    else if (o->size < o->len || (mc_block_size(o->buff) && (spif_memidx_t) mc_block_size(o->buff) < o->size)) FAIL(site, "invariant:size", shape, "%s: len=%ld size=%ld block=%zu", what, (long) o->len, (long) o->size, mc_block_size(o->buff));
+    else if (memcmp(o->buff, pay, (size_t) explen)) { int d = 0; while (d < explen && o->buff[d] == pay[d]) d++; FAIL(site, "model:bytes", shape, "%s: bytes differ from the input at offset %d of %d", what, d, explen); }
+}
+static const int H_FIRST[] = { 33000, 70000 }, H_SECOND[] = { 4097, 9000, 20000 };
+static void sh_desc(uint64_t idx, void *ctx, char *b, size_t n)
+{
+    (void) ctx; int kind = (int) (idx % 2), f = H_FIRST[(idx / 2) % 2], sc = H_SECOND[(idx / 4) % 3], viafp = (int) (idx / 12);
+    snprintf(b, n, CLS " %s(%s) on %d bytes, delete, then %s on %d bytes already queued", viafp ? "new_from_fp" : "new_from_fd", kind ? "unix socket" : "pipe", f, viafp ? "new_from_fp" : "new_from_fd", sc);
+}
+static void sh_case(uint64_t idx, void *ctx)
+{
+    (void) ctx; int kind = (int) (idx % 2), lens[2] = { H_FIRST[(idx / 2) % 2], H_SECOND[(idx / 4) % 3] }, viafp = (int) (idx / 12);
+    const char *site = viafp ? CLS "_new_from_fp" : CLS "_new_from_fd";
+    mc_set_shape("after a large stream");
+    for (int step = 0; step < 2; step++) {
+        unsigned char *pay = malloc((size_t) lens[step] + 1); fill_bytes(pay, lens[step]);
+        int fds[2] = { -1, -1 }; FILE *fp = NULL; T o;
+        if (!queue_stream(kind, pay, lens[step], fds)) { free(pay); return; }
+        if (viafp) { fp = fdopen(fds[0], "r"); o = F(new_from_fp)(fp); } else o = F(new_from_fd)(fds[0]);
+        check_bytes(o, pay, lens[step], site, "after a large stream", step ? "second stream" : "first stream");
+        if (o) { F(append_from_ptr)(o, (spif_byteptr_t) "q", 1); if (o->buff && (o->len < 1 || o->buff[o->len - 1] != 'q' || o->size < o->len)) FAIL(site, "model:followup-append", "after a large stream", "append after construction broke the value"); F(del)(o); }
+        if (fp) fclose(fp); else close(fds[0]);
+        free(pay);
+    }
+    mc_nontrivial();
+    mc_outcome(idx);
+}
+enum { HE_EIO0, HE_EIO1, HE_EIO2, HE_EIO3, HE_DIR, HE_WRONLY, NHE };
+static void he_desc(uint64_t idx, void *ctx, char *b, size_t n)
+{
+    static const char *w[NHE] = { "read() fails with EIO at once", "EIO on the 2nd read()", "EIO on the 3rd read()", "EIO on the 4th read()", "the descriptor is a directory (EISDIR)", "the descriptor is write-only (EBADF)" };
+    (void) ctx; snprintf(b, n, CLS " new_from_ptr(\"seed\",4), done(), init_from_fd() on a 9000-byte pipe where %s; then append, then del", w[idx % NHE]);
+}
+static void he_case(uint64_t idx, void *ctx)
+{
+    (void) ctx; int he = (int) (idx % NHE); const char *site = CLS "_init_from_fd", *shape = "hard read error";
+    mc_set_shape(shape);
+    unsigned char *pay = malloc(9001); fill_bytes(pay, 9000);
+    int fds[2] = { -1, -1 }, fd = -1;
+    if (he <= HE_EIO3) { if (!queue_stream(0, pay, 9000, fds)) { free(pay); return; } fd = fds[0]; }
+    else if (he == HE_DIR) fd = open("/", O_RDONLY);
+    else { const char *td = getenv("VERIF_SCRATCH"); char path[256]; snprintf(path, sizeof path, "%s/wo-%d", td ? td : "/tmp", (int) getpid()); fd = open(path, O_WRONLY | O_CREAT, 0600); unlink(path); }
+    T o = F(new_from_ptr)((spif_byteptr_t) "seed", 4);
+    F(done)(o);
+    g_hook_fd = fd; g_eio_at = he <= HE_EIO3 ? he : -1; g_eio_seen = 0;
+    spif_bool_t r = F(init_from_fd)(o, fd);
+    g_hook_fd = -1; g_eio_at = -1;
+    (void) r;
+    if (!o->buff) { if (o->len || o->size) FAIL(site, "invariant:empty-state", shape, "buffer pointer NULL with len=%ld size=%ld", (long) o->len, (long) o->size); }
+    else if (o->len < 0 || o->size < o->len || (mc_block_size(o->buff) && (spif_memidx_t) mc_block_size(o->buff) < o->size)) FAIL(site, "invariant:size", shape, "len=%ld size=%ld block=%zu", (long) o->len, (long) o->size, mc_block_size(o->buff));
+    else if (he <= HE_EIO3 && (o->len > 9000 || memcmp(o->buff, pay, (size_t) o->len))) FAIL(site, "model:bytes", shape, "the bytes are not a prefix of what was delivered");
+    spif_memidx_t before = o->len;
+    F(append_from_ptr)(o, (spif_byteptr_t) "q", 1);
+    if (!o->buff || o->len != before + 1 || o->buff[before] != 'q' || o->size < o->len) FAIL(site, "model:followup-append", shape, "append after the failed read: len %ld -> %ld", (long) before, (long) o->len);
+    F(del)(o);
+    if (fd >= 0) close(fd);
+    free(pay);
+    mc_nontrivial();
+    mc_outcome(idx);
+}
+
 /* ------------------------------------------------------------------ sprintf: every formatted length up to a bound (internal probe/retry buffers have sizes of their own) */
 static void sp_desc(uint64_t idx, void *ctx, char *b, size_t n) { (void) ctx; static const char *f[3] = { "\"%s\" with a string of n characters", "\"%*d\" with width n", "\"<%s>\" with a string of n characters" }; snprintf(b, n, CLS " sprintf(%s), n=%d, then the same on an object that already holds text", f[idx % 3], (int) (idx / 3)); }
 static void sp_case(uint64_t idx, void *ctx)
@@ -526,6 +606,7 @@ int main(int argc, char **argv)
     g_dev = (int) mc_arg_int("dev", 2);
     if (!mc_arg("only", NULL) || !strcmp(mc_arg("only", ""), "ctor"))
         mc_e2_level(CLS "_stream_ctor", g_k * 10 + g_dev, (uint64_t) NSRC * NLENS, sc_case, sc_desc, NULL);
+    if (!mc_arg("only", NULL)) { mc_e2_level(CLS "_stream_history", 1, 24, sh_case, sh_desc, NULL); mc_e2_level(CLS "_fd_hard_error", 1, NHE, he_case, he_desc, NULL); }
     if (!mc_arg("only", NULL)) { int maxn = (int) mc_arg_int("spmax", mc_thorough() ? 9000 : 700); mc_e2_level(CLS "_sprintf_len", maxn, (uint64_t) (maxn + 1) * 3, sp_case, sp_desc, NULL); }
     return mc_finish();
 }
